@@ -382,6 +382,17 @@ let wire_suite () =
             emit (Printf.sprintf "S %d %d %s -" i (if v then 1 else 0) name) in
           cmp "C04acc" (n_of_int 8) "mi"; cmp "C04acc" (n_of_int 28) "sha"; cmp "C10acc" (n_of_int 32808) "fp";
           emit (Printf.sprintf "S %d %d C18ud -" i (if get "ud" = "1" then 1 else 0));
+          (* the same option relations on the decoded VALUES (positions combined with value digests) *)
+          (match get "pv" with
+           | "-" -> ()
+           | pv ->
+             let obs = List.map (fun t -> parse_ores (String.concat " " (String.split_on_char '/' t))) (String.split_on_char '|' pv) in
+             if List.length obs = 17 then begin
+               let arr = Array.of_list obs in
+               let o = { o_none = arr.(0);
+                         o_cfg = (fun k v u nn_ -> arr.(1 + (if k then 8 else 0) + (if v then 4 else 0) + (if u then 2 else 0) + (if nn_ then 1 else 0))) } in
+               emit (Printf.sprintf "S %d %d C18 values-differ" i (if monitor_C18val o then 1 else 0))
+             end else emit (Printf.sprintf "S %d 0 C18 unparsable" i));
           emit (Printf.sprintf "S %d %d C03prefix -" i (if get "prefix" = "1" then 1 else 0));
           last := None
         | None -> ()
@@ -515,6 +526,7 @@ let md5_of_bytes (l : n list) : string =
   Digest.to_hex (Digest.bytes b)
 let encbuf_suite () =
   let idx = ref 0 in
+  let last_obs = ref None in
   let pending = ref None in
   (try
     while true do
@@ -548,8 +560,15 @@ let encbuf_suite () =
             | ["ERR"] -> Some None
             | _ -> None in
           emit (Printf.sprintf "S %d %d C14 -" i (if monitor_C14 bl l obs then 1 else 0));
+          last_obs := Some (i, obs);
           pending := None
         | None -> failwith "I without C"
+      end else if n >= 6 && String.sub line 0 7 = "J tail=" then begin
+        match !last_obs with
+        | Some (i, obs) ->
+          emit (Printf.sprintf "S %d %d C14 tail-modified" i (if monitor_C14_tail obs (line.[7] = '1') then 1 else 0));
+          last_obs := None
+        | None -> ()
       end
     done
   with End_of_file -> ())
@@ -637,7 +656,13 @@ let codecrt_suite () =
           (* C01 on the implementation: an accepted value must survive the round trip; the class tag comes from the model *)
           let body = String.sub line 2 (n - 2) in
           let ok = body = "REJ" || (String.length body > 5 && String.sub body (String.length body - 4) 4 = "rt=1") in
-          emit (Printf.sprintf "S %d %d C01 %s" i (if ok then 1 else 0) (if int_of_n (ctor_class cty input) = 1 then "quoted-ctor-noncanonical" else "-"));
+          (* the known class D8: decided by the model; where the constructor is outside the model (non-ASCII realm) by the
+             shape of the value the implementation stored (it ends with half a quoted-pair) *)
+          let stored = (match split_sp body with "OK" :: h :: _ -> (try Some (bytes_of_hex h) with _ -> None) | _ -> None) in
+          let d8 = (match ctor_of cty input, stored with
+              | VUnmodelled, Some q -> dangling_backslash q
+              | _, _ -> int_of_n (ctor_class cty input) = 1) in
+          emit (Printf.sprintf "S %d %d C01 %s" i (if ok then 1 else 0) (if d8 then "quoted-ctor-noncanonical" else "-"));
           last := None;
           pending := None
         | Some (`Ign (b, b')) ->
